@@ -54,12 +54,19 @@ Proof. intros Hg. destruct o; try discriminate; destruct fuel; reflexivity. Qed.
 Lemma statement_ok q s : fault s = None -> statement q s = (Ret tt, with_log s (q :: log s)).
 Proof. intros Hf. unfold statement. rewrite Hf. reflexivity. Qed.
 
+Lemma statement_run q s :
+  exists l', statement q s = (Ret tt, with_log s l') \/ statement q s = (Raise EOperational, with_log s l').
+Proof.
+  unfold statement. eexists. destruct (fault s) as [n|]; [destruct (Nat.eqb n (length (log s)))|]; auto.
+Qed.
+
 Lemma select_spec k flt keep s :
-  I s -> fault s = None ->
+  I s ->
   match run_op cfg 0 (OSelect k flt keep) s with (_, s') => I s' end.
 Proof.
-  intros H Hf. cbn [run_op]. unfold or_empty_slot.
-  unfold bind at 1. rewrite (statement_ok _ s Hf).
+  intros H. cbn [run_op]. unfold or_empty_slot.
+  unfold bind at 1. destruct (statement_run (SSelect k) s) as (l0 & [Es|Es]); rewrite Es.
+  2:{ destruct keep; [apply Inv_slot_none|]; apply Inv_log; exact H. }
   set (s0 := with_log s _).
   assert (H0 : I s0) by (apply Inv_log; exact H).
   unfold bind at 1, gets. cbn [fst snd].
@@ -85,11 +92,12 @@ Proof.
 Qed.
 
 Lemma byalt_spec k u s :
-  I s -> fault s = None ->
+  I s ->
   match run_op cfg 0 (OByAlt k u) s with (_, s') => I s' end.
 Proof.
-  intros H Hf. cbn [run_op]. unfold hold_or_none.
-  unfold bind at 1. rewrite (statement_ok _ s Hf).
+  intros H. cbn [run_op]. unfold hold_or_none.
+  unfold bind at 1. destruct (statement_run (SSelectAlt k) s) as (l0 & [Es|Es]); rewrite Es.
+  2:{ apply Inv_slot_none. apply Inv_log. exact H. }
   set (s0 := with_log s _).
   assert (H0 : I s0) by (apply Inv_log; exact H).
   unfold bind at 1, gets. cbn [fst snd].
@@ -105,16 +113,16 @@ Proof.
 Qed.
 
 Lemma run_op_spec fuel o s :
-  I s -> fault s = None -> gop m o = true ->
+  I s -> gop m o = true ->
   match run_op cfg fuel o s with (_, s') => I s' end.
 Proof.
-  intros H Hf Hg. unfold gop in Hg. apply andb_true_iff in Hg. destruct Hg as (Hg & Hrd).
+  intros H Hg. unfold gop in Hg. apply andb_true_iff in Hg. destruct Hg as (Hg & Hrd).
   apply andb_true_iff in Hg. destruct Hg as (Hg & Hup).
   rewrite (run_op_fuel fuel o Hg).
   destruct o; try discriminate Hg; try (apply select_spec; assumption); try (apply byalt_spec; assumption); cbn [run_op].
   all: try (apply with_handle; [exact H|intros ob Hob]).
   - (* create *)
-    unfold hold_or_none. pose proof (so_create_spec cfg m s k kvs H Hf) as C.
+    unfold hold_or_none. pose proof (so_create_spec cfg m s k kvs H) as C.
     destruct (so_create cfg k kvs s) as [[ob|e] s']; [destruct C as (C1 & C2 & _); now apply hold_spec|].
     destruct C as (C1 & _). now apply Inv_slot_none.
   - (* get *)
@@ -150,7 +158,7 @@ Proof.
   intros H Hg. unfold step.
   pose proof (run_op_spec 2 o (with_fault (with_log s []) None)) as R.
   assert (H0 : I (with_fault (with_log s []) None)) by (apply Inv_fault; apply Inv_log; exact H).
-  specialize (R H0 eq_refl Hg). destruct (run_op cfg 2 o _) as [x s']. exact R.
+  specialize (R H0 Hg). destruct (run_op cfg 2 o _) as [x s']. exact R.
 Qed.
 
 Theorem reachable_Inv ops : forallb (gop m) ops = true -> I (run cfg ops).
